@@ -7,11 +7,10 @@ import (
 	"fmt"
 
 	"go.dedis.ch/kyber/v4"
-	"go.dedis.ch/kyber/v4/group/edwards25519"
-	"go.dedis.ch/kyber/v4/group/p256"
 	"go.dedis.ch/kyber/v4/sign/anon"
 
 	"verifharness/internal/dlgroup"
+	"verifharness/internal/groups"
 	"verifharness/internal/kc"
 )
 
@@ -23,11 +22,16 @@ type anonSuite struct {
 
 func anonSuites(c *kc.Ctx, rng *kc.Rng) []anonSuite {
 	mock := dlgroup.New(dlgroup.L, rng.Fork("mock"))
-	return []anonSuite{
-		{"dlgroup", mock, mock},
-		{"ed25519", edwards25519.NewBlakeSHA256Ed25519(), nil},
-		{"p256", p256.NewBlakeSHA256P256(), nil},
+	out := []anonSuite{{"dlgroup", mock, mock}}
+	// every real suite of this build configuration that offers what anon needs (group + XOF + random)
+	for _, name := range []string{"ed25519", "p256"} {
+		if g := groups.ByName(name); g != nil {
+			if as, ok := g.Suite.(anon.Suite); ok {
+				out = append(out, anonSuite{name, as, nil})
+			}
+		}
 	}
+	return out
 }
 
 func anonDec(s anon.Suite, ct []byte, set anon.Set, mine int, x kyber.Scalar) string {
